@@ -57,6 +57,15 @@ def run(ctx, log):
     names = token_names()
     fixed = sorted(names)
     words = ["a", "x1", "_", "als_", "alsof", "stelling", "ja_", "é", "naïef", "данные", "teller"]
+    # complete: every keyword with every one-character affix class before and after it is ONE identifier
+    kws = [w for w in names if w.isalpha() and len(w) > 1]
+    affixed = []
+    for kw in kws:
+        for a in ["é", "ñ", "ж", "語", "_", "1", "x", "Ω"]:
+            affixed.append(kw + a)
+            if not a.isdigit():
+                affixed.append(a + kw)
+    words += affixed
     nums = ["0", "7", "42", "1.5", "2.", "10.25"]
     strs = ['""', '"a"', '"a\\"b"', '"\\\\"', '"é{}"', '"// geen commentaar"']
     vocab = fixed + words + nums + strs
@@ -83,6 +92,14 @@ def run(ctx, log):
         if len(ts) > 2:
             texts.append(nlast.render(ts, rng, ws=0.3, comments=0.2))
             expect.append(exp)
+    # comments of every ending directly before tokens of every kind: a comment never influences what follows
+    comments = ["// c", "//", "// \\", "// pad C:\\", "// \"", "// \\\"", "// é\\", "/// x \\"]
+    glue = ["", " ", "(", "a ", "1 ", "[", ", ", "x = "]
+    follow = ['""', '"a"', '"\\\\"', '"\\""', '"\\"x"', "als", "é", "1.5", "==", "jaén"]
+    for c, g, f in itertools.product(comments, glue, follow):
+        gt = [t for t in g.split() if t] if g.strip() not in ("(", "[", ",") else [g.strip()]
+        texts.append("1 %s\n%s%s" % (c, g, f))
+        expect.append(";".join(canon_token(t, names) for t in ["1"] + gt + [f]))
     obs = vlib.nlh("tokens", [vlib.hexs(s) for s in texts], tag="c08t", timeout=120)
     for s, e, o in zip(texts, expect, obs):
         ctx.seen(s, nontrivial=";" in e)
